@@ -58,6 +58,17 @@ pub fn check(shape: &Shape, value: &Value, l: &mut Local) -> CaseResult {
             if got_slice.as_deref() != Ok(&e.bytes[..]) {
                 return Err(fail("wire", format!("to_slice = {:?} but the specification prescribes {}", got_slice.map(|b| hex(&b)), hex(&e.bytes)), cj()));
             }
+            if e.bytes.len() <= 4096 {
+                let mut cw = crate::iodoubles::ChunkWriter::new(
+                    crate::iodoubles::Schedule { chunks: vec![1 + e.bytes.len() % 3, 1, 7], interrupt_every: if e.bytes.len() % 2 == 0 { 0 } else { 3 } },
+                    crate::iodoubles::Fault::None,
+                    false,
+                );
+                let r = no_panic(|| postcard::to_io(&t, &mut cw).map(|_| ())).map_err(|p| fail("wire", format!("to_io panicked: {}", p), cj()))?;
+                if r.is_err() || cw.accepted != e.bytes {
+                    return Err(fail("wire", format!("to_io into a sink taking a few bytes per call: {:?}, sink holds {} but the specification prescribes {}", r, hex(&cw.accepted), hex(&e.bytes)), cj()));
+                }
+            }
             let sz = no_panic(|| postcard::experimental::serialized_size(&t)).map_err(|p| fail("wire", format!("serialized_size panicked: {}", p), cj()))?;
             // (the size-measuring call belongs to C05's statement, not to this one: counted, not judged)
             if sz == Ok(e.bytes.len()) {
